@@ -25,7 +25,7 @@ FORMULAS = {
     'F14': '=IFS(A1,D1,B1,E1,C1,F1)', 'F15': '=IFS(A1>0,D1,A1<0,E1)', 'F16': '=IF(A1,D1,E1)%', 'F17': '=IFERROR(C2,"fb")',
     'F18': '=IF(A1,D1,E1)%*B1', 'F19': '=ROUND(IF(A1,D1,E1),0)', 'F20': '=IF(IF(A1,B1,C1),D1,E1)', 'F21': '=IFERROR(IF(A1,LEFT(G1,2),D1),E1)',
     'F22': '=IF(A1,D1,E1)+IF(B1,E1,F1)', 'F23': '=IFERROR(IF(A1,D1,E1)*2,-1)', 'F24': '=IF(A1,IFERROR(D1,E1),F1)', 'F25': '=IFS(A1,D1)',
-    'F26': '=2*IF(A1,D1,E1)', 'F27': '=IF(A1=B1,D1,E1)',
+    'F26': '=2*IF(A1,D1,E1)', 'F27': '=IF(A1=B1,D1,E1)', 'F28': '=IF(A1,D1,IF(B1,E1,F1)+C1)', 'F29': '=IF(A1,D1,IF(B1,E1,F1)&"x")', 'F30': '=IF(A1,IF(B1,E1,F1)*2,D1)',
 }
 CONSTS = {'A1': 1, 'B1': 0, 'C1': 1, 'D1': 10, 'E1': 20, 'F1': 30, 'G1': 5}
 K = {}
@@ -72,6 +72,12 @@ def run(report, tier, seed):
     add('if_nested_branch', 'F4', 'a: C, b: C, d: int, e: int, f: int', 'True', "return ev('F4', A1=a, B1=b, D1=d, E1=e, F1=f) == ((d if b else e) if a else f)")
     add('if_nested_condition', 'F20', 'a: C, b: C, c: C, d: int, e: int', 'True',
         "return ev('F20', A1=a, B1=b, C1=c, D1=d, E1=e) == (d if (b if a else c) else e)")
+    add('if_else_branch_if_plus', 'F28', 'a: C, b: C, c: int, d: int, e: int, f: int', 'True',
+        "return ev('F28', A1=a, B1=b, C1=c, D1=d, E1=e, F1=f) == (d if a else (e if b else f) + c)")
+    add('if_else_branch_if_concat', 'F29', 'a: C, b: C, e: int, f: int', '-99 <= e <= 99 and -99 <= f <= 99',
+        "return ev('F29', A1=a, B1=b, D1='q', E1=e, F1=f) == ('q' if a else str(e if b else f) + 'x')")
+    add('if_then_branch_if_times', 'F30', 'a: C, b: C, d: int, e: int, f: int', 'True',
+        "return ev('F30', A1=a, B1=b, D1=d, E1=e, F1=f) == ((e if b else f) * 2 if a else d)")
     add('if_inside_arithmetic', 'F5', 'a: C, d: int, e: int', 'True', "return ev('F5', A1=a, D1=d, E1=e) == 1 + (d if a else e) * 2")
     add('if_right_operand', 'F26', 'a: C, d: int, e: int', 'True', "return ev('F26', A1=a, D1=d, E1=e) == 2 * (d if a else e)")
     add('if_two_in_sum', 'F22', 'a: C, b: C, d: int, e: int, f: int', 'True', "return ev('F22', A1=a, B1=b, D1=d, E1=e, F1=f) == (d if a else e) + (e if b else f)")
